@@ -47,6 +47,7 @@ func checkC20(r *core.Run) {
 			c20Sym(r, p)
 			c20ReleaseOnlyEmpty(r, p, "R-C20-links")
 			c20PageCacheSources(r, p, "R-C20-links")
+			c20PrivateTestMirrorsMalloc(r, p, "R-C20-links")
 		}
 	}
 }
@@ -1036,4 +1037,107 @@ func c20PageCacheSources(r *core.Run, p *core.Program, rule string) {
 		}
 	}
 	r.Check(n >= 2, rule, "page-cache-sources/sites", "-", fmt.Sprintf("%d places put a page into the cache", n), fmt.Sprintf("%d places put a page into the cache (expected at least 2)", n))
+}
+
+// c20PrivateTestMirrorsMalloc: Malloc routes a request to a private mapping when size + sliceHdrLen is above
+// MaxSharedSize, and stores Cap = slot - sliceHdrLen (shared) or the mapping's capacity (private).  The free
+// side recovers the kind from the header alone, so its test must be the mirror image: Cap + sliceHdrLen >
+// MaxSharedSize - wherever uintptrFreePrivate is called.  Without the header term an allocation in the largest
+// shared class (Cap = MaxSharedSize - sliceHdrLen ... ) is fine, but a private one whose capacity lies within
+// sliceHdrLen above the limit is sent to the shared free path and corrupts a page header it does not own.
+func c20PrivateTestMirrorsMalloc(r *core.Run, p *core.Program, rule string) {
+	pk := p.Pkg(c20Pkg)
+	if pk == nil {
+		r.Fail(rule, "private-test", "-", "memory package not loaded")
+		return
+	}
+	hdr, ok := an.ConstInt64(pk, "sliceHdrLen")
+	if !ok {
+		r.Fail(rule, "private-test", "-", "sliceHdrLen not found")
+		return
+	}
+	n := 0
+	for _, fn := range p.ModuleFuncs() {
+		if fn.Pkg == nil || fn.Pkg.Pkg.Path() != pk.PkgPath {
+			continue
+		}
+		for k, c := range an.CallsTo(fn, false, "(*lib/others/memory.Allocator).uintptrFreePrivate") {
+			n++
+			found, good := false, false
+			got := ""
+			type cmp struct {
+				x, y ssa.Value
+				rel  token.Token
+			}
+			var cmps []cmp
+			for _, dc := range an.DomConds(c.Block()) {
+				if x, y, rel, isCmp := dc.Cmp(); isCmp {
+					cmps = append(cmps, cmp{x, y, rel})
+					continue
+				}
+				// the test made by a helper of the package: what the helper returns
+				v, neg := dc.If.Cond, !dc.True
+				if u, isU := v.(*ssa.UnOp); isU && u.Op == token.NOT {
+					v, neg = u.X, !neg
+				}
+				if call, isCall := v.(*ssa.Call); isCall {
+					if cal := call.Call.StaticCallee(); cal != nil && cal.Pkg == fn.Pkg && len(cal.Blocks) > 0 {
+						an.Instrs(cal, func(i ssa.Instruction) {
+							if ret, isRet := i.(*ssa.Return); isRet && len(ret.Results) == 1 {
+								if x, y, rel, ok := an.CondCmp(ret.Results[0]); ok {
+									if neg {
+										rel = map[token.Token]token.Token{token.LSS: token.GEQ, token.GEQ: token.LSS, token.GTR: token.LEQ, token.LEQ: token.GTR, token.EQL: token.NEQ, token.NEQ: token.EQL}[rel]
+									}
+									cmps = append(cmps, cmp{x, y, rel})
+								}
+							}
+						})
+					}
+				}
+			}
+			for _, cm := range cmps {
+				x, y, rel := cm.x, cm.y, cm.rel
+				d := an.LinForm(x)
+				for a, v := range an.LinForm(y) {
+					d[a] -= v
+				}
+				var capK, maxK, other int64
+				for a, v := range d {
+					switch {
+					case a == "":
+					case strings.HasSuffix(a, ".Cap"):
+						capK += v
+					case strings.HasSuffix(a, ".MaxSharedSize"):
+						maxK += v
+					default:
+						other += v * v
+					}
+				}
+				if capK == 0 || maxK == 0 {
+					continue
+				}
+				found = true
+				// normalise to  s*(Cap - Max) + K > 0
+				K := d[""]
+				switch rel {
+				case token.GTR:
+				case token.GEQ:
+					K++
+				case token.LSS:
+					capK, maxK, K = -capK, -maxK, -K
+				case token.LEQ:
+					capK, maxK, K = -capK, -maxK, -K+1
+				default:
+					continue
+				}
+				got = fmt.Sprintf("%d*Cap %+d*MaxSharedSize %+d > 0", capK, maxK, K)
+				if capK == 1 && maxK == -1 && other == 0 && K == hdr {
+					good = true
+				}
+			}
+			r.Check(found && good, rule, fmt.Sprintf("private-test/%s#%d", core.FuncName(fn), k+1), p.Pos(c.Pos()), "the private free path is taken exactly when Cap + sliceHdrLen > MaxSharedSize",
+				fmt.Sprintf("the private free path is chosen by a test (%s) that is not the mirror of Malloc's 'size + sliceHdrLen > MaxSharedSize': a private allocation just above the limit is freed as a shared slot (or the reverse)", got))
+		}
+	}
+	r.Check(n >= 2, rule, "private-test/sites", "-", fmt.Sprintf("%d calls of the private free path", n), fmt.Sprintf("%d calls of the private free path found (expected Free and uintptrFree)", n))
 }
